@@ -154,7 +154,8 @@ static struct iv_timer_ *slot(int index)
 	struct iv_timer_ratnode *r = st->ratnode.timer_root;
 	int i;
 
-	if (index >> ((st->rat_depth + 1) * IV_TIMER_SPLIT_BITS))
+	if ((st->rat_depth + 1) * IV_TIMER_SPLIT_BITS < 8 * (int)sizeof(index) &&
+	    index >> ((st->rat_depth + 1) * IV_TIMER_SPLIT_BITS))
 		return NULL;
 	for (i = st->rat_depth; i > 0; i--) {
 		int bits = (index >> (i * IV_TIMER_SPLIT_BITS)) & (IV_TIMER_SPLIT_NODES - 1);
